@@ -236,6 +236,11 @@ func built(c *mon.Ctx, r *gen.Rand, e *ref.EBP) {
 	t := ref.NTPInstant(e.Sec, e.Frac)
 	set := func(b ebp.EncoderBoundaryPoint) {
 		f := e.Flags
+		if r.Chance(3) {
+			// an earlier time stamp on the same object, from either NTP era: only the last one set counts
+			b.SetEBPTime(time.Unix([]int64{-61505152, 0, 1600000000, 2085978495, 2085978496, 2085978497, 3000000000, 4200000000}[r.Intn(8)], int64(r.Intn(1000000000))).UTC())
+			c.Count("built.time_set_more_than_once")
+		}
 		if timeFirst {
 			b.SetEBPTime(t)
 		}
@@ -263,7 +268,22 @@ func built(c *mon.Ctx, r *gen.Rand, e *ref.EBP) {
 		set(&b)
 		b.SetConcealmentFlag(e.Flags&0x04 != 0)
 		b.ExtensionFlags = e.Ext &^ 0x80
-		b.SetPartitionFlag(e.Ext&0x80 != 0)
+		if e.Flags&0x01 != 0 {
+			b.SetPartitionFlag(e.Ext&0x80 != 0)
+		} else if e.Ext&0x80 != 0 && len(e.Reserved) < 100 {
+			// the partition flag lives in the extension byte, which this object does not have: what the call does
+			// then (nothing, or switching the extension on as well) is the library's choice; the object must
+			// encode to what it reports from here on
+			b.SetPartitionFlag(true)
+			c.Count("built.partition_flag_without_extension")
+			if b.ExtensionFlag() {
+				ee := *e
+				ee.Flags |= 0x01
+				e = &ee
+			} else if b.PartitionFlag() {
+				c.Fail("built:partition-without-extension", "after SetPartitionFlag(true) on an EBP without the extension flag the object reports the partition flag but no extension", wit{"", shape(e), ""})
+			}
+		}
 		b.PartitionFlags = e.Partitions
 		if e.Flags&0x10 != 0 {
 			if r.Bool() {
@@ -355,6 +375,14 @@ func built(c *mon.Ctx, r *gen.Rand, e *ref.EBP) {
 	}
 }
 
+// EBP objects that live as long as the worker: every time of the time streams is also set on them, one after the
+// other (an object is stamped again and again, with times of either era in any order).
+var (
+	keptComcast   = ebp.CreateComcastEBP()
+	keptCableLabs = ebp.CreateCableLabsEbp()
+	keptStamps    int
+)
+
 func timeCase(c *mon.Ctx, t time.Time, class string) {
 	cm := ebp.CreateComcastEBP()
 	cm.SetEBPTime(t)
@@ -363,6 +391,19 @@ func timeCase(c *mon.Ctx, t time.Time, class string) {
 	cl.SetEBPTime(t)
 	d2 := cl.EBPTime().Sub(t)
 	c.Eval(1)
+	if keptStamps%61 == 60 {
+		// a new pair now and then: the first time an object is stamped with is then of either era as well
+		keptComcast, keptCableLabs = ebp.CreateComcastEBP(), ebp.CreateCableLabsEbp()
+	}
+	keptComcast.SetEBPTime(t)
+	keptCableLabs.SetEBPTime(t)
+	keptStamps++
+	c.Count("time.set_on_an_object_stamped_before")
+	if k1, k2 := keptComcast.EBPTime().Sub(t), keptCableLabs.EBPTime().Sub(t); k1 < -1 || k1 > 1 || k2 < -1 || k2 > 1 {
+		c.Fail("time:roundtrip-on-an-object-stamped-before", fmt.Sprintf("SetEBPTime(%s) on an object whose time had been set %d times before reads back %v / %v later (a fresh object: %v)", t.Format(time.RFC3339Nano), keptStamps-1, k1, k2, d1),
+			wit{Detail: fmt.Sprintf("set %s, read back %s", t.Format(time.RFC3339Nano), keptComcast.EBPTime().UTC().Format(time.RFC3339Nano))})
+		keptComcast, keptCableLabs = ebp.CreateComcastEBP(), ebp.CreateCableLabsEbp()
+	}
 	if d1 < -1 || d1 > 1 || d2 < -1 || d2 > 1 {
 		sig := "time:roundtrip"
 		if d1 <= -999999990 && d1 >= -1000000010 {
